@@ -43,7 +43,7 @@ ASSUMPTIONS = [
     'theorems; monitored by finite differences on the Cn objects themselves (tags monitor:*): thermo 0.6.1 violates the J-law '
     'numerically for several liquid polynomial fits (catastrophic cancellation), see known finding dS/dT:external-J-precision',
     'the integrals the model wires are the values measured by the adapter on the same Cn objects (table, exact bit patterns)',
-    'force_gas_critical_phase is False (default) and include_excess_energies is False (default): excess functors are not modelled',
+    'the excess functors themselves (equation of state) are not modelled: with include_excess_energies the per-chemical excess values are parameters recorded from the real chemicals; force_gas_critical_phase is modelled as the phase override it is',
     'universe of bundled chemicals = those of a fixed candidate list whose Cn (s, l, g), Tm, Tb, Hvap(Tb), Hfus are all available',
     'Python float arithmetic vs Lean Float: same IEEE operations in the same order; values compared with rtol 1e-9 (sum() is compensated in 3.12)',
 ]
@@ -57,6 +57,7 @@ CANDIDATES = ['Water', 'Ethanol', 'Methanol', 'Propanol', 'Butanol', 'Benzene', 
               'DiethylEther', 'Chloroform', 'Acetaldehyde', 'LacticAcid', 'Octanol', 'Decane', 'Dodecane', 'o-Xylene',
               'Styrene', 'Isopropanol', 'Isobutanol', 'SO2', 'H2S', 'Argon', 'CO', 'H2', 'HCl', 'Acetonitrile',
               'Tetrahydrofuran', 'DMSO', 'EthyleneGlycol']
+RESET_KINDS = ('Tb', 'Tm', 'phase_ref', 'reset')
 LOCK_ROUTES = ['ctor', 'inplace', 'copy', 'copy', 'copyof', 'copyof-inplace', 'relock']
 LOCK_GRID_IDS = ['Water', 'Ethanol', 'CO2', 'Benzene', 'Glycerol']
 MIX_IDS = ['Water', 'Ethanol', 'Methanol', 'Glycerol', 'Propane', 'N2']
@@ -520,6 +521,7 @@ def get_chem_default_ref(ID):
 
 def pure_value(c, kind, ph, T, P):
     f = getattr(c, kind)
+    if f is None: raise TypeError(f'{kind} is None')
     if kind == 'Cn':
         return f(T) if c.locked_state else f(ph, T)
     return f(T, P) if c.locked_state else f(ph, T, P)
@@ -616,10 +618,63 @@ def run_mix(t, emit, failures, tags, idx):
     return count
 
 
+def run_mixx(t, emit, failures, tags, idx):
+    """mixx <ID,..> <phase> <T> <P> <n,..> <m,..> <k> <0|1>: Mixture.H / S with include_excess_energies = flag.
+    The per-chemical excess values H_excess_i, S_excess_i(phase, T, P) are parameters recorded from the real chemicals."""
+    import numpy as np
+    ids = t[1].split(',')
+    ph, T, P = t[2], float(t[3]), float(t[4])
+    n = [float(x) for x in t[5].split(',')]
+    m = [float(x) for x in t[6].split(',')]
+    k, flag = float(t[7]), t[8] == '1'
+    key = ('x', flag) + tuple(ids)
+    if key not in _MIX:
+        chems, _ = get_mix(ids)
+        chemicals = tmo.Chemicals(chems)
+        mx = tmo.IdealMixture.from_chemicals(chemicals, include_excess_energies=flag)
+        _MIX[key] = (list(chemicals), mx)
+    chems, mix = _MIX[key]
+    count = 0
+    try:
+        h = [float(pure_value(c, 'H', ph, T, P)) for c in chems]
+        sv = [float(pure_value(c, 'S', ph, T, P)) for c in chems]
+        hx = [float(pure_value(c, 'H_excess', ph, T, P)) for c in chems]
+        sx = [float(pure_value(c, 'S_excess', ph, T, P)) for c in chems]
+    except Exception as e:
+        tags.append('mixx-skip:' + type(e).__name__); return 0
+    if not all(math.isfinite(x) for x in h + sv + hx + sx):
+        tags.append('mixx-skip:non-finite'); return 0
+    H = lambda mol: float(mix.H(ph, np.array(mol), T, P))
+    S = lambda mol: float(mix.S(ph, np.array(mol), T, P))
+    f = '1' if flag else '0'
+    v = H(n)
+    emit(f'mixx {f} {csv(n)} {csv(h)} {csv(hx)}', fbits(v))
+    emit(f'mixSx {f} {csv(n)} {csv(sv)} {csv(sx)}', fbits(S(n)))
+    if any(hx): tags.append('mixx:nonzero-excess:' + f)
+    eff = [a + (b if flag else 0.0) for a, b in zip(h, hx)]
+    lin = math.fsum(a * b for a, b in zip(n, eff))
+    scale = math.fsum(abs(a * b) for a, b in zip(n, h)) + math.fsum(abs(a * b) for a, b in zip(n, hx)) + 1e-12
+    count += 1
+
+    def fail(sig, what):
+        failures.append({'signature': sig, 'op_index': idx(),
+                         'what': f'mixture of {t[1]} (include_excess_energies={flag}) phase {ph!r} T={T} P={P} mol={n}: {what}'})
+    if not abs(v - lin) <= 1e-9 * scale:
+        fail('mixture-H:excess-flag:not-mole-weighted-sum', f'mixture.H = {v!r}, sum n_i (H_i + [flag] H_excess_i) = {lin!r}')
+    vm, vnm, vkn = H(m), H([a + b for a, b in zip(n, m)]), H([k * a for a in n])
+    sc2 = scale + math.fsum(abs(a * b) for a, b in zip(m, eff))
+    if not abs(vnm - (v + vm)) <= 1e-9 * sc2:
+        fail('mixture-H:excess-flag:not-additive', f'H(n+m) = {vnm!r} but H(n) + H(m) = {v + vm!r} (m={m})')
+    if not abs(vkn - k * v) <= 1e-9 * abs(k) * scale:
+        fail('mixture-H:excess-flag:not-extensive', f'H({k} n) = {vkn!r} but {k} H(n) = {k * v!r}')
+    return count
+
+
 def run_mixupd(t, emit, failures, tags, idx):
     """mixupd <ID,ID,..> <phase> <T> <P> <n,n,..> <kind> <member> <amount> <k>
     Evaluate the mixture at (phase, T, P); update ONE member chemical's data IN PLACE through the public API
-    (kind: Hfus | Sfus | S0 setters, which patch the functor constants, or Cn = `Cn.<phase>.add_method(amount)`);
+    (kind: Hfus | Sfus | S0 setters, which patch the functor constants; Cn = `Cn.<phase>.add_method(amount)`;
+    Tb | Tm | phase_ref setters and `reset` = add_method + reset_free_energies(), which rebuild the functors);
     evaluate again at EXACTLY the same (phase, T, P) on the same mixture object and compare with the mole-weighted
     sum of the CURRENT pure values.  Fresh chemicals and a fresh mixture per case (they are mutated)."""
     import numpy as np
@@ -650,11 +705,18 @@ def run_mixupd(t, emit, failures, tags, idx):
                 tags.append(f'mixupd-skip:{kd}:{type(e).__name__}'); continue
             emit(('mixS' if kd == 'S' else 'mix') + f' {csv(mol)} {csv(vals)}', fbits(v))
             count += 1
-            if kd == 'S': continue                       # the mixing term of S is the known finding; H and Cn are linear
             lin = math.fsum(a * b for a, b in zip(mol, vals))
             scale = math.fsum(abs(a * b) for a, b in zip(mol, vals)) + 1e-12
-            if not abs(v - lin) <= 1e-9 * scale:
-                sig = f'mixture-{kd}:not-mole-weighted-sum' if stage == 'before' else f'mixture-{kd}:stale-after-data-update'
+            if kd == 'S':
+                # the mixing term of S is the known finding (#20): accept the code's term or the ideal one, nothing else
+                tot = sum(mol)
+                term = math.fsum(a * math.log(a / tot) for a in mol if a) if tot > 0 else 0.0
+                good = any(abs(v - lin - x) <= 1e-9 * (scale + abs(x)) for x in (term, -R * term))
+            else:
+                good = abs(v - lin) <= 1e-9 * scale
+            if not good:
+                sig = f'mixture-{kd}:not-mole-weighted-sum' if stage == 'before' else \
+                    (f'mixture-{kd}:stale-after-free-energy-reset' if kind in RESET_KINDS else f'mixture-{kd}:stale-after-data-update')
                 failures.append({'signature': sig, 'op_index': idx(),
                                  'what': f'mixture of {t[1]} phase {ph!r} T={T} P={P} mol={mol}, {stage} `{target.ID}.{kind}` '
                                          f'update: mixture.{kd} = {v!r} but sum n_i {kd}_i(phase,T,P) of the current pure '
@@ -665,6 +727,13 @@ def run_mixupd(t, emit, failures, tags, idx):
     elif kind == 'Sfus': target.Sfus = (target.Sfus or 0.0) + amount / 100.0
     elif kind == 'S0': target.S0 = (target.S0 or 0.0) + amount / 100.0
     elif kind == 'Cn': getattr(target.Cn, ph).add_method(20.0 + abs(amount) / 100.0)
+    # updates that go through Chemical.reset_free_energies (new functors; fix C07-4 keeps the handle objects)
+    elif kind == 'Tb': target.Tb = min(target.Tb + abs(amount) / 100.0, 0.95 * (target.Tc or 1e9))
+    elif kind == 'Tm': target.Tm = target.Tm + amount / 200.0
+    elif kind == 'phase_ref': target.phase_ref = {'s': 'l', 'l': 'g', 'g': 's'}[target.phase_ref] if amount > 0 else \
+        {'s': 'g', 'l': 's', 'g': 'l'}[target.phase_ref]
+    elif kind == 'reset':
+        getattr(target.Cn, ph).add_method(20.0 + abs(amount) / 100.0); target.reset_free_energies()
     else: raise ValueError('unknown update ' + kind)
     after = {kd: _try(lambda kd=kd: pure(kd)) for kd in ('H', 'S', 'Cn')}
     if any(before[kd] != after[kd] for kd in before): tags.append('mixupd:pure-values-changed:' + kind)
@@ -678,7 +747,8 @@ def run_mixupd(t, emit, failures, tags, idx):
         scale = math.fsum(abs(a * b) for a, b in zip(n, pure('H'))) + 1e-12
         count += 1
         if not abs(s.H - lin) <= 1e-9 * scale:
-            failures.append({'signature': 'mixture-H:stale-after-data-update', 'op_index': idx(),
+            failures.append({'signature': 'mixture-H:stale-after-free-energy-reset' if kind in RESET_KINDS else
+                             'mixture-H:stale-after-data-update', 'op_index': idx(),
                              'what': f'new Stream of {t[1]} phase {ph!r} T={T} P={P} mol={n} after `{target.ID}.{kind}` update: '
                                      f'Stream.H = {s.H!r} but sum n_i H_i of the current pure values = {lin!r}'})
     except Exception as e:
@@ -768,6 +838,25 @@ def run_ops(ops):
             run_meta(emit)
         elif op == 'mix':
             oracle_evals += run_mix(t, emit, failures, tags, idx)
+        elif op == 'mixx':
+            oracle_evals += run_mixx(t, emit, failures, tags, idx)
+        elif op in ('Hforce', 'Sforce'):
+            # chemical.H / .S with the class switch PhaseTPHandle.force_gas_critical_phase set for the call
+            ph, T, P, force = t[1], float(t[2]), float(t[3]), t[4] == '1'
+            c = sess.c
+            if c.locked_state: ph = c.locked_state
+            if not sess.cns.get(ph) or not sess.cns.get('g' if not c.locked_state else ph) or not c.Tc: continue
+            for l in sess.tabs([T]): emit(l, 'ok')
+            if not any(l.startswith('init') for l in model_in): emit(sess.init_line(), sess.init_answer())
+            cls = tmo.base.PhaseTPHandle
+            old_flag = cls.force_gas_critical_phase
+            cls.force_gas_critical_phase = force
+            try:
+                ans = sess.value_tok(op[0], ph, T, P)
+            finally:
+                cls.force_gas_critical_phase = old_flag
+            emit(f'{op} {int(force)} {fbits(c.Tc)} {ph} {fbits(T)} {fbits(P)}', ans)
+            tags.append('force-gas:' + ('super' if T > c.Tc else 'sub') + 'critical:' + str(int(force)))
         elif op == 'mixupd':
             oracle_evals += run_mixupd(t, emit, failures, tags, idx)
         else:
@@ -825,7 +914,7 @@ def run_meta(emit):
 def run_impl(case: Case) -> ImplResult:
     model_in, outs, failures, tags, oracle_evals = run_ops(case.ops)
     compared = sum(1 for l in model_in if not l.startswith(('env', 'tab', 'poly')))
-    nontrivial = tuple(case.ops) if compared and (oracle_evals or case.ops[0].startswith(('fn', 'meta', 'sfus', 'phaseref'))) else None
+    nontrivial = tuple(case.ops) if compared and (oracle_evals or case.ops[0].startswith(('fn', 'meta', 'sfus', 'phaseref', 'mixx'))) else None
     tags = sorted(set(tags)) + sorted({'op:' + l.split(' ')[0] for l in case.ops})
     return ImplResult(model_in=model_in, outs=outs, failures=failures, tags=tags, nontrivial=nontrivial)
 
@@ -971,6 +1060,11 @@ def gen_chem_case(rng):
     for _ in range(rng.randrange(2, 6)):
         ph = rng.choice(phases)
         ops.append(f'{rng.choice("HS")} {ph} {rnd_T(rng, c, ph)} {rnd_P(rng)}')
+    if c.Tc and rng.random() < 0.3:
+        for _ in range(2):
+            ph = rng.choice(phases)
+            T = round(c.Tc * rng.choice([0.8, 1.05, 1.3]), 1)
+            ops.append(f'{rng.choice(["Hforce", "Sforce"])} {ph} {T} {rnd_P(rng)} {rng.choice("011")}')
     ops += oracle_ops(rng, c)
     return Case(ops, {})
 
@@ -1028,8 +1122,8 @@ def gen_mix_case(rng):
 
 def gen_mixupd_case(rng):
     ids = rng.sample(MIX_IDS, rng.randrange(2, 5))
-    kind = rng.choice(['Hfus', 'Hfus', 'Cn', 'Cn', 'S0', 'Sfus'])
-    ph = 's' if kind in ('Hfus', 'Sfus') and rng.random() < 0.8 else rng.choice('slg')
+    kind = rng.choice(['Hfus', 'Hfus', 'Cn', 'Cn', 'S0', 'Sfus', 'Tb', 'Tb', 'Tm', 'Tm', 'phase_ref', 'phase_ref', 'reset'])
+    ph = 's' if kind in ('Hfus', 'Sfus', 'Tm') and rng.random() < 0.8 else ('g' if kind == 'Tb' and rng.random() < 0.7 else rng.choice('slg'))
     T = round(rng.uniform(240, 460), 1)
     P = rnd_P(rng)
     n = [rng.choice([0.0, 1.0, 2.0, 0.5, 3.25, round(rng.uniform(0, 50), 3)]) for _ in ids]
@@ -1072,6 +1166,9 @@ def generate(rng, tier, index, nworkers):
         elif r < 0.55: yield gen_chem_case(rng)
         elif r < 0.73: yield gen_fn_case(rng)
         elif r < 0.80: yield gen_mixupd_case(rng)
+        elif r < 0.85:
+            c = gen_mix_case(rng)
+            yield Case(['mixx' + c.ops[0][3:] + ' ' + rng.choice('01')], {})
         else: yield gen_mix_case(rng)
 
 
@@ -1096,9 +1193,19 @@ def corpus():
               'H s 300.0 101325.0', 'S s 300.0 200000.0', 'S l 300.0 200000.0', 'S g 300.0 200000.0', 'o:ref', 'o:jumpTb', 'o:jumpTm']),
         Case(['phaseref db Water', 'phaseref db CO2', 'phaseref blank 298.15 400.0', 'phaseref blank 200.0 298.15',
               'phaseref blank none none', 'phaseref blank 400.0 none', 'phaseref blank 0.0 250.0']),
+        # include_excess_energies and force_gas_critical_phase
+        Case(['mixx Water,Ethanol,Propane g 350.0 200000.0 1.0,2.0,0.5 0.5,0.0,3.0 2.0 1']),
+        Case(['mixx Water,Ethanol,Propane l 350.0 200000.0 1.0,2.0,0.5 0.5,0.0,3.0 2.0 0']),
+        Case(['chem db Water l', 'wiring', 'Hforce l 700.0 101325.0 1', 'Hforce l 600.0 101325.0 1', 'Sforce s 700.0 101325.0 1',
+              'Hforce l 700.0 101325.0 0']),
         # in-place data updates between two evaluations at the same (phase, T, P) (seeded change C07-2)
         Case(['mixupd Water,Ethanol s 250.0 101325.0 2.0,3.0 Hfus 0 500.0 2.0']),
         Case(['mixupd Water,Ethanol l 320.0 101325.0 2.0,3.0 Cn 1 13000.0 3.5']),
+        # updates that rebuild the functors (defect C07-4: the mixture kept the old handle objects)
+        Case(['mixupd Water,Ethanol g 400.0 101325.0 2.0,3.0 Tb 0 687.5704152 2.0']),
+        Case(['mixupd Water,Ethanol s 250.0 101325.0 2.0,3.0 Tm 0 -2630.0 2.0']),
+        Case(['mixupd Water,Ethanol g 400.0 101325.0 2.0,3.0 phase_ref 0 500.0 0.5']),
+        Case(['mixupd Water,Ethanol l 320.0 101325.0 2.0,3.0 reset 1 13000.0 3.5']),
         # the doctest composition of IdealEntropyModel
         Case(['mix Water,Ethanol l 350.0 101325.0 0.0,1.0 1.0,0.0 2.0']),
     ]
